@@ -96,3 +96,21 @@ Lemma nonvacuous_weekly :
     Z.of_nat (length (filter (fun b => b) bits)) = 6241 /\ Z.of_nat (length bits) = 11520.
 Proof. split; [vc | split; [vc | split; [vc | split; [vc | split; [vc |]]]]]. eexists. split; [vc | split; vc]. Qed.
 
+
+(* ================================================================== configured at midnight *)
+(* start_time="00:00:00" end_time="23:59:59": a well-formed element whose start is 0 ticks; it
+   denotes, and create_schedule builds, the all-day schedule, which is active when polled *)
+Definition midnight_x : xattrs :=
+  mkX (Some [48; 48; 58; 48; 48; 58; 48; 48]) (Some [50; 51; 58; 53; 57; 58; 53; 57]) None None None None.
+(* start_day="mo" end_day="fr" 00:00:00 .. 18:00:00 *)
+Definition midnight_week_x : xattrs :=
+  mkX (Some [48; 48; 58; 48; 48; 58; 48; 48]) (Some [49; 56; 58; 48; 48; 58; 48; 48]) None None
+      (Some [109; 111]) (Some [102; 114]).
+Lemma midnight_nonvacuous :
+  denote (x_start midnight_x) (x_end midnight_x) (x_utc midnight_x) (x_dur midnight_x) (x_sd midnight_x)
+         (x_ed midnight_x) = D_sched 0 (Some (hms_ns 23 59 59)) 0 (-1) (-1) /\
+  create_schedule midnight_x = CS_ok (mkSched 0 (hms_ns 23 59 59) 0 0 (-1) (-1)) /\
+  configured_run midnight_x false (poll sunday ns_minute 3) = CR_bits [true; true; true] /\
+  create_schedule midnight_week_x = CS_ok (mkSched 0 (hms_ns 18 0 0) 0 0 1 5) /\
+  configured_run midnight_week_x false (poll (at_ 0 23 59 0) ns_minute 3) = CR_bits [false; true; true].
+Proof. split; [vc | split; [vc | split; [vc | split; vc]]]. Qed.
